@@ -6,16 +6,30 @@
 
      k      "req"   one well-framed, single-batch Arrow IPC request stream
             "bytes" a damaged byte string (truncated / bit-flipped copy of a seed request)
-     m      vgi_rpc.method:            absent | nonutf8 | unknown | unary | stream_hdr | stream_nohdr |
+     hist   what happened on this connection before the request (the serve loop keeps per-connection state: the
+            "a stray input stream may follow" flag and the cached shm segment):
+                                       fresh | ok (an ordinary call) | arm (a rejection after which a header-less
+                                       stream client's input stream may still arrive: unknown method, or a header-less
+                                       stream call refused after the method was identified -- and no such stream was
+                                       sent) | arm_ok (the same, then an ordinary call) | noarm (a rejection that
+                                       leaves nothing behind: unary / header-stream / undecodable request) |
+                                       shmcached (an earlier call advertised a usable segment, now cached)
+     m      vgi_rpc.method:            absent | nonutf8 | unknown | unary | unary_big (its result is large enough to
+                                       be routed through an advertised segment) | stream_hdr | stream_nohdr |
                                        topts (__transport_options__) | describe (__describe__)
      rv     vgi_rpc.request_version:   absent | wrong | ok
      pv     vgi_rpc.protocol_version:  absent | wrong | ok          (relative to the version the server declares)
      seg    shm segment keys:          none | name_only | bad_size (name + size that is no usable integer) |
-                                       nonexistent | foreign (exists, header is not ours) | good
+                                       nonexistent | foreign (exists, header is not ours) | good |
+                                       tiny (ours, too small for a large result) |
+                                       corrupt (ours by its header, allocation table garbage)
      ptr    shm pointer keys:          none | garbage (offset/length not integers, length missing) |
-                                       range (outside the segment / not a live allocation) | ok
+                                       range (outside the segment / not a live allocation) | ok |
+                                       wrongrows (a live allocation holding a batch of 0 or 2 rows)
      loc    vgi_rpc.location:          absent | garbage
-     cols   columns vs. the method's declared parameters:  match | renamed | extra | missing | retyped
+     cols   columns vs. the method's declared parameters:  match | renamed | extra | missing | retyped |
+                                       badvalue (declared schema, but the value cannot be turned into the
+                                       parameter's Python type: unknown enum member, undecodable dataclass bytes)
      rows   0..3
      extra  other metadata:            none | arb (arbitrary keys, non-UTF-8 values) | trace (traceparent /
                                        tracestate that is not UTF-8) | loglevel (vgi_rpc.log_level on a request) |
@@ -37,13 +51,16 @@ EXTENDS Naturals, Sequences, FiniteSets
 CONSTANTS MaxFaults      \* request classes with at most this many deviations (Faults) are emitted as cases for the
                          \* driver (>= 8: the full product).  The table invariants are checked on the full product.
 
-MethS  == {"absent", "nonutf8", "unknown", "unary", "stream_hdr", "stream_nohdr", "topts", "describe"}
+HistS  == {"fresh", "ok", "arm", "arm_ok", "noarm", "shmcached"}
+MethS  == {"absent", "nonutf8", "unknown", "unary", "unary_big", "stream_hdr", "stream_nohdr", "topts", "describe"}
 RvS    == {"absent", "wrong", "ok"}
 PvS    == {"absent", "wrong", "ok"}
-SegS   == {"none", "name_only", "bad_size", "nonexistent", "foreign", "good"}
-PtrS   == {"none", "garbage", "range", "ok"}
+SegS   == {"none", "name_only", "bad_size", "nonexistent", "foreign", "good", "tiny", "corrupt"}
+PtrS   == {"none", "garbage", "range", "ok", "wrongrows"}
+SegUnusable == {"nonexistent", "foreign", "bad_size"}       \* advertised, but attaching fails (or is not attempted)
+SegOurs     == {"good", "tiny", "corrupt"}                  \* attaching succeeds
 LocS   == {"absent", "garbage"}
-ColS   == {"match", "renamed", "extra", "missing", "retyped"}
+ColS   == {"match", "renamed", "extra", "missing", "retyped", "badvalue"}
 RowS   == 0..3
 ExtraS == {"none", "arb", "trace", "loglevel", "fw"}
 
@@ -57,12 +74,17 @@ B(x) == IF x THEN 1 ELSE 0
    (ptr # none) is ONE deviation whose natural shape is: zero rows + a usable advertised segment; a location pointer
    likewise comes with zero rows.  So zero rows are free next to a pointer key, and the segment is measured against
    "good" when there is a pointer, against "none" otherwise.                                                      *)
-Faults(c) == B(c.rv # "ok") + B(c.pv # "ok") + B(c.loc # "absent") + B(c.cols # "match") + B(c.extra # "none")
+Faults(c) == B(c.hist # "fresh") + B(c.rv # "ok") + B(c.pv # "ok") + B(c.loc # "absent") + B(c.cols # "match") + B(c.extra # "none")
            + B(c.ptr # "none")
            + (IF c.ptr # "none" THEN B(c.seg # "good") ELSE B(c.seg # "none"))
            + (IF c.rows = 0 /\ (c.ptr # "none" \/ c.loc # "absent") THEN 0 ELSE B(c.rows # 1))
 
-Req   == [k : {"req"}, m : MethS, rv : RvS, pv : PvS, seg : SegS, ptr : PtrS, loc : LocS, cols : ColS, rows : RowS,
+\* number of dimensions that differ from an ordinary request (monotone along ReqClassWalk's paths;
+\* Faults(c) >= Changed(c) - 2)
+Changed(c) == B(c.hist # "fresh") + B(c.rv # "ok") + B(c.pv # "ok") + B(c.seg # "none") + B(c.ptr # "none")
+            + B(c.loc # "absent") + B(c.cols # "match") + B(c.rows # 1) + B(c.extra # "none")
+
+Req   == [k : {"req"}, hist : HistS, m : MethS, rv : RvS, pv : PvS, seg : SegS, ptr : PtrS, loc : LocS, cols : ColS, rows : RowS,
           extra : ExtraS]
 Bytes == [k : {"bytes"}, how : HowS, seed : SeedS, region : RegionS, then : ThenS]
 
@@ -74,12 +96,14 @@ Cases == Req
 Worlds == [ver : BOOLEAN, ext : BOOLEAN]
 
 \* ------------------------------------------------------------------ the decision tree (serve_one, in code order)
-Known(c)   == c.m \in {"unary", "stream_hdr", "stream_nohdr", "describe"}
+Known(c)   == c.m \in {"unary", "unary_big", "stream_hdr", "stream_nohdr", "describe"}
 \* a zero-row batch carrying the pointer key and no log level is a pointer batch (is_shm_pointer_batch /
 \* is_external_location_batch)
 IsPtr(c)    == c.rows = 0 /\ c.ptr # "none" /\ c.extra # "loglevel"
 IsLoc(c, w) == w.ext /\ c.rows = 0 /\ c.loc = "garbage" /\ c.extra # "loglevel"
-Resolved(c) == IsPtr(c) /\ c.seg = "good" /\ c.ptr = "ok"          \* the request batch is read back from the segment
+\* the request batch is read back from the segment; it then has one row (ok) or not (wrongrows)
+Resolved(c) == IsPtr(c) /\ c.seg \in SegOurs /\ c.ptr \in {"ok", "wrongrows"}
+EffRows(c)  == IF Resolved(c) THEN (IF c.ptr = "ok" THEN 1 ELSE 0) ELSE c.rows
 \* The one-row rule only applies to a batch that has columns.  __describe__ and __transport_options__ take no
 \* parameters (their matching request has no columns); every other target method of the harness service takes
 \* exactly one parameter, so `missing` leaves no column there.  (For the two parameterless methods every
@@ -95,7 +119,7 @@ Late(c, w) ==
   ELSE IF c.m = "unknown" THEN "unknown"
   ELSE IF w.ver /\ c.m # "describe" /\ c.pv # "ok" THEN "protover"
   ELSE IF c.cols # "match" THEN "signature"
-  ELSE IF c.seg \in {"nonexistent", "foreign", "bad_size"} THEN "shmrefresh"    \* advertised for the data plane only
+  ELSE IF c.seg \in SegUnusable THEN "shmrefresh"                               \* advertised for the data plane only
   ELSE "dispatch"
 
 Stage(c, w) ==
@@ -103,23 +127,37 @@ Stage(c, w) ==
   ELSE IF c.rv # "ok" THEN "reqver"
   ELSE IF c.m = "nonutf8" THEN "methodutf8"
   ELSE IF IsLoc(c, w) THEN "location"                                   \* pointer to an unfetchable location
-  ELSE IF IsPtr(c) /\ c.seg \in {"nonexistent", "foreign", "bad_size"} THEN "ptrattach"
-  ELSE IF IsPtr(c) /\ c.seg = "good" /\ c.ptr \in {"garbage", "range"} THEN "ptrresolve"
-  ELSE IF ~Resolved(c) /\ ~NoColumns(c) /\ c.rows # 1 THEN "rows"
+  ELSE IF IsPtr(c) /\ c.seg \in SegUnusable THEN "ptrattach"
+  ELSE IF IsPtr(c) /\ c.seg \in SegOurs /\ c.ptr \in {"garbage", "range"} THEN "ptrresolve"
+  ELSE IF ~NoColumns(c) /\ EffRows(c) # 1 THEN "rows"
   ELSE Late(c, w)
 
 Succeeds(s) == s \in {"caps", "dispatch"}
 
+\* a segment of ours whose allocation table is garbage: releasing the request's region, or routing a large result
+\* through it, can fail -- falling back to an inline answer and refusing are both admissible
+TouchesCorruptTable(c) == c.seg = "corrupt" /\ (Resolved(c) \/ c.m = "unary_big")
+
 KindsOf(s, c) ==
   IF s = "shmrefresh" THEN {"success", "error"}
-  ELSE IF Succeeds(s) THEN (IF c.extra = "trace" THEN {"success", "error"} ELSE {"success"})
+  ELSE IF Succeeds(s) THEN (IF c.extra = "trace" \/ TouchesCorruptTable(c) THEN {"success", "error"} ELSE {"success"})
   ELSE {"error"}
 
-\* a pointer batch without columns whose segment cannot be attached has nothing to resolve: refusing it and
-\* ignoring the pointer are both admissible
+\* After an arming rejection the serve loop expects the client's orphaned input stream: a stream without a method
+\* key arriving next is that stream as far as the server can tell, and is consumed without a reply (documented
+\* lock-step trade-off); answering it is admissible too.  Nothing else is ever swallowed.
+MaySwallow(c) == c.hist = "arm" /\ c.m = "absent"
+
 Kinds(c, w) ==
   LET s == Stage(c, w) IN
-  IF s = "ptrattach" /\ NoColumns(c) THEN {"error"} \cup KindsOf(Late(c, w), c) ELSE KindsOf(s, c)
+  IF MaySwallow(c) THEN {"error", "swallowed"}
+  \* a pointer batch is resolved against the cached segment when this request names none it can attach
+  ELSE IF c.hist = "shmcached" /\ IsPtr(c) /\ s \in {"ptrattach", "ptrresolve", "rows"}
+       THEN {"error"} \cup KindsOf(Late(c, w), c)
+  \* a pointer batch without columns whose segment cannot be attached has nothing to resolve: refusing it and
+  \* ignoring the pointer are both admissible
+  ELSE IF s = "ptrattach" /\ NoColumns(c) THEN {"error"} \cup KindsOf(Late(c, w), c)
+  ELSE KindsOf(s, c)
 
 (* How the raw peer completes the exchange (it must behave like a lock-step client, otherwise *it* breaks framing):
      "one"    write the request, expect one reply stream
@@ -142,25 +180,29 @@ ExpectedBytes(c) == [script |-> "one"]
 Expected(c) == [w \in {"ve", "Ve", "vE", "VE"} |->
                   LET ww == CHOOSE x \in Worlds : WorldName(x) = w IN
                   [stage |-> Stage(c, ww), success |-> "success" \in Kinds(c, ww), error |-> "error" \in Kinds(c, ww),
-                   script |-> Script(c, ww)]]
+                   script |-> Script(c, ww), may_swallow |-> MaySwallow(c)]]
 
 \* ------------------------------------------------------------------ table sanity (TLC, every case, every world)
-Total(c) == \A w \in Worlds : Stage(c, w) \in Stages /\ Kinds(c, w) # {} /\ Kinds(c, w) \subseteq {"success", "error"}
+Total(c) == \A w \in Worlds : /\ Stage(c, w) \in Stages /\ Kinds(c, w) # {}
+                              /\ Kinds(c, w) \subseteq {"success", "error", "swallowed"}
 FaultFreeSucceeds(c) ==
   (c.k = "req" /\ (Known(c) \/ c.m = "topts")
-     /\ (Faults(c) = 0 \/ (Faults(c) = 1 /\ c.ptr = "ok")))        \* an ordinary request, inline or through shm
+     \* an ordinary request, inline or through shm, whatever happened on the connection before
+     /\ (Faults(c) = 0 \/ (Faults(c) = 1 /\ (c.ptr = "ok" \/ c.hist # "fresh"))))
      => \A w \in Worlds : Kinds(c, w) = {"success"}
 OnlyCleanSucceeds(c) ==
   \A w \in Worlds : ("success" \in Kinds(c, w)) =>
       /\ Known(c) \/ c.m = "topts"
       /\ c.rv = "ok"
       /\ c.cols = "match" \/ c.m = "topts"
-      /\ c.rows = 1 \/ Resolved(c) \/ NoColumns(c)
+      /\ EffRows(c) = 1 \/ NoColumns(c) \/ (c.hist = "shmcached" /\ IsPtr(c))
       /\ (w.ver /\ c.m \notin {"describe", "topts"}) => c.pv = "ok"
       /\ ~IsLoc(c, w)
 SingleFaultExact(c) ==
-  (c.k = "req" /\ Faults(c) <= 1 /\ c.extra # "trace" /\ c.seg \notin {"nonexistent", "foreign", "bad_size"})
+  (c.k = "req" /\ Faults(c) <= 1 /\ c.extra # "trace" /\ c.seg \notin SegUnusable \cup {"corrupt"} /\ ~MaySwallow(c))
      => \A w \in Worlds : Cardinality(Kinds(c, w)) = 1
+OnlyOrphanedInputSwallowed(c) ==          \* a request is left unanswered only in the one situation described above
+  \A w \in Worlds : ("swallowed" \in Kinds(c, w)) => (c.hist = "arm" /\ Stage(c, w) = "nomethod")
 BlindOnlyWhenConsumed(c) ==
   \A w \in Worlds : (Script(c, w) = "blind") => (c.m = "stream_nohdr" /\ ConsumesInput(Stage(c, w)))
 WorldOnlyWhereItMatters(c) ==
@@ -169,13 +211,15 @@ WorldOnlyWhereItMatters(c) ==
 
 \* ------------------------------------------------------------------ judging what the real code did
 (* observation o:
-     world      "ve" | "Ve" | "vE" | "VE"          transport  "pipe" | "unix"
+     world      "ve" | "Ve" | "vE" | "VE"          transport  "pipe" | "unix" | "tcp" | "shmpipe" (ShmPipeTransport:
+                                                              a static segment on the server side)
      valid      (bytes cases) the damaged bytes are still one complete, valid, single-batch IPC stream
      first      "ok"            first reply stream complete, no error batch
                 "typed_error"   complete, carries an EXCEPTION batch with an exception type and a message
                 "untyped_error" complete, EXCEPTION batch without type or message
                 "incomplete"    bytes arrived that are not a complete IPC stream
                 "none"          nothing arrived
+     swallowed  no reply stream belongs to the request: the first reply that arrived is the probe's own answer
      died       an exception escaped RpcServer.serve (the connection's thread/process is gone)
      ended      the serve loop returned although the peer had not closed its side
      probe      "own" | "other" | "none"      answer to the well-formed probe call written after the request
@@ -183,7 +227,8 @@ WorldOnlyWhereItMatters(c) ==
                 within the watchdog (confirmed by a second run)                                              *)
 WellFramed(c, o) == c.k = "req" \/ o.valid
 
-Answered(c, o)           == WellFramed(c, o) => o.first \in {"ok", "typed_error", "untyped_error"}
+Answered(c, o)           == WellFramed(c, o) => \/ o.first \in {"ok", "typed_error", "untyped_error"}
+                                                    \/ (c.k = "req" /\ MaySwallow(c) /\ o.swallowed)
 TypedError(c, o)         == WellFramed(c, o) => o.first # "untyped_error"
 KeepsServing(c, o)       == WellFramed(c, o) => (~o.died /\ ~o.ended)
 ProbeOwnAnswer(c, o)     == (WellFramed(c, o) /\ (c.k = "req" \/ c.then = "probe")) => o.probe = "own"
@@ -198,9 +243,12 @@ Conforms(c, o) ==
 
 \* design drift (never a violation): the answer class is outside the decision tree's admissible set
 WorldOf(o) == CHOOSE x \in Worlds : WorldName(x) = o.world
+ObservedKind(o) == IF o.swallowed THEN "swallowed" ELSE IF o.first = "ok" THEN "success" ELSE "error"
 KindDrift(c, o) ==
-  IF c.k = "req" /\ o.first \in {"ok", "typed_error"}
-       /\ (IF o.first = "ok" THEN "success" ELSE "error") \notin Kinds(c, WorldOf(o))
+  IF c.k = "req" /\ (o.first \in {"ok", "typed_error"} \/ o.swallowed)
+       \* behind a ShmPipeTransport pointer batches are resolved against the server's own segment, whatever the request names
+       /\ ~(o.transport = "shmpipe" /\ c.ptr # "none")
+       /\ ObservedKind(o) \notin Kinds(c, WorldOf(o))
   THEN {"KindOutsideTree"} ELSE {}
 \* one TLC pass for both (the driver separates the drift marker from the clause names)
 Judged(c, o) == Conforms(c, o) \cup KindDrift(c, o)
